@@ -454,7 +454,7 @@ def t_obs(truth_tree, run, vis, info):
 _TRIPLE = re.compile(r"\(\s*(\d+)\s*,\s*(\d+)\s*,\s*(\d+)\s*\)")
 
 
-def coq_judge(tag, case_terms, shard=36, timeout=900):
+def coq_judge(tag, case_terms, shard=36, timeout=3000):
     """evaluate Model.GenericCorr.judge_all on the cases; returns {(case, obs): code}"""
     os.makedirs(CORR, exist_ok=True)
     # round-robin so that the heavy documents (random, big) are spread over the shards
@@ -590,9 +590,11 @@ def build_docs(ck):
                     texts = iter([(rt, "")] + list(combo))
                     root_uri = "urn:a" if (len(docs) % 5 == 4) else ""
                     add(f"exh-text:{n}", g.from_shape(sh, labels_cycle, root_uri, texts))
+                    if n >= 4:   # the big exhaustive family: TreeParser + one placement per document
+                        docs[-1]["placements"] = docs[-1]["placements"][:1]
     for n in range(full_n + 1, ck.n(4, 5) + 1):
         shs = shapes(n)
-        for _ in range(ck.n(180, 2500)):
+        for _ in range(ck.n(180, 1500)):
             texts = iter([(r.choice(TEXT_KINDS), "")] + [(r.choice(TEXT_KINDS), r.choice(TAIL_KINDS)) for _ in range(n - 1)])
             add(f"sampled-text:{n}", g.from_shape(r.choice(shs), labels_cycle, r.choice(["", "", "urn:a"]), texts))
     # B: every name x namespace labelling of the shapes up to 3 nodes
@@ -604,7 +606,7 @@ def build_docs(ck):
                     add(f"exh-names:{n}", g.from_shape(sh, iter(combo), r.choice(["", "urn:a"]), texts))
     # C: random trees, full alphabet; a third of them carry the known trouble makers
     npl = ck.n(2, 4)
-    for i in range(ck.n(120, 3000)):
+    for i in range(ck.n(120, 2000)):
         trig = i % 3 == 0
         e = g.rand_tree(r.choice(["", "", "urn:a"]), r.choice([2, 3, 4, 6]), r.choice([6, 12, 25, 60]), trig, i % 4 == 1)
         d_kind = "random-trig" if trig else "random"
@@ -615,7 +617,7 @@ def build_docs(ck):
     # N: holder classes found by element qname below the holder (and, generically, deeper down)
     NESTED_PL = ["mixed-any-n-0", "mixed-any-n-1", "list-any-n-0", "single-any-n-0", "choice-any-n-0", "mixed-local-n-0",
                  "list-any-n-1", "single-any-n-1"]
-    for i in range(ck.n(90, 2500)):
+    for i in range(ck.n(90, 1500)):
         e = g.nested_tree(r.choice([2, 3, 4]), r.choice([5, 9, 16]), amap_root=(i % 4 == 1))
         pls = [p for p in NESTED_PL if p.endswith("-1")] if i % 4 == 1 else NESTED_PL
         docs.append({"kind": "nested", "el": e, "handlers": ["native", "lxml"],
